@@ -11,6 +11,7 @@
    payment, so a Fail can go out while a part is pending; [hist_wf] forbids exactly those events and nothing else. *)
 From Tramp Require Import Model.Base Model.Fee Model.Classify Model.Node Model.Provider Model.ProviderSys Model.Sys.
 From Tramp Require Import Proofs.SysBasics Proofs.SysShape Proofs.SysTheorems Proofs.SysReach Proofs.SysCalls Proofs.SysNode Proofs.SysSafety Proofs.SysLive.
+From Tramp Require Import Proofs.SysTerm.
 
 (* every Fail response to a held HTLC is given at a moment when every outgoing part has failed (none pending, none
    complete) and no pay command runs — stronger than the statement: it does not even need an attempt to exist *)
@@ -60,6 +61,28 @@ Theorem C02_completed_is_settled : forall c n t0 h0 a0 evs en h p0,
   let s := after c n t0 h0 a0 evs in
   has_done p0 (parts (nd s)) -> entry_ (pl s) = Some en -> In h (listeners en) -> Settled c (hid h) s.
 Proof. intros c n t0 h0 a0 evs en h p0 Hn Hwf. exact (completed_is_settled c _ en h p0 (after_wreach true c n t0 h0 a0 evs Hn Hwf)). Qed.
+
+(* ... and on EVERY schedule, not only along one continuation: once a part has completed, whatever happens next (any
+   contract-respecting continuation evs') no step ever fails an HTLC back, and when the continuation has run out of things to do
+   (no contract-respecting progress event changes the state: C06_at_rest_means_all_answered; such runs are bounded:
+   C06_progress_runs_are_bounded) no HTLC is held any more. Every HTLC held when the part completed has then been answered, and
+   not with a failure: it was settled. *)
+Lemma hist_wf_prefix lv c : forall a b s, hist_wf lv c s (a ++ b) -> hist_wf lv c s a.
+Proof. induction a as [|e a IH]; intros b s H; [exact I|]. cbn [app hist_wf] in *. destruct H as [H1 H2]. split; [exact H1|exact (IH b _ H2)]. Qed.
+
+Theorem C02_completed_is_settled_on_every_run : forall c n t0 h0 a0 evs evs' p,
+  node_ok n -> hist_wf true c (sys_start n t0 h0 a0) (evs ++ evs') ->
+  has_done p (parts (nd (after c n t0 h0 a0 evs))) ->
+  (forall k ev h m, nth_error evs' k = Some ev ->
+     ~ In (OResp h (Fail m)) (snd (step c (after c n t0 h0 a0 (evs ++ firstn k evs')) ev))) /\
+  (let s' := after c n t0 h0 a0 (evs ++ evs') in
+   (forall ev, progress_ev s' ev = true -> ev_wf true s' ev -> ~ seffective c s' ev) -> entry_ (pl s') = None).
+Proof.
+  intros c n t0 h0 a0 evs evs' p Hn Hwf Hd. split.
+  - intros k ev h m _. apply (C02_never_failed_after_completion c n t0 h0 a0 evs (firstn k evs') ev p h m Hn); [|exact Hd].
+    apply (hist_wf_prefix true c (evs ++ firstn k evs') (skipn k evs')). rewrite <- app_assoc, firstn_skipn. exact Hwf.
+  - intros s'. exact (at_rest_means_all_answered c s' (after_wreach true c n t0 h0 a0 (evs ++ evs') Hn Hwf)).
+Qed.
 
 (* the restart path: replayed HTLCs of a Pending record are settled with the interrupted attempt's preimage when it
    completes (here: found complete), and failed only after every part of it is known to have failed *)
